@@ -230,6 +230,9 @@ def run(ctx):
                           f"skips the unique-name/context/callback cleanup", key=f"raw task creation {d}", node=n, rel=u.rel)
 
     # R14.4 task.executor --------------------------------------------------------------------------------------------
+    ctx.rule("R14.7", "done callbacks that add or remove callbacks of the finishing task do not disturb the others: every remaining callback still runs once, run_coro ends normally", floor=3)
+    callback_mutation_table(ctx, program, "R14.7")
+
     ctx.rule("R14.6", "task.cancel hands a task to the reaper only when its wrapper has registered it (a task cancelled before its first step never runs its cleanup)", floor=8)
     cancel_table(ctx, program, "R14.6")
 
@@ -317,3 +320,48 @@ def cancel_table(ctx, program, rid):
                         elif exc != "TypeError":
                             bad = f"does not refuse with TypeError ({desc})"
                 ctx.check(bool(paths) and bad is None, rid, uid, f"task.cancel: {label}", msg=f"task.cancel of {label}: {bad or 'no exit'}", key=f"cancel {label}", node=fn, rel="function.py")
+
+
+class _LivePolicy(FlowPolicy):
+    live_lists = True  # containers iterated in place behave as Python's iterators do (a dict that changes size raises RuntimeError)
+
+
+def callback_mutation_table(ctx, program, rid):
+    from ..absint import NONE, ObjV
+    fn = program.func(RUN_CORO)
+
+    def info():
+        return ListV((ObjV("actx", "AstEval"), ListV((), "tuple"), DictV([])), "list")
+
+    for mutate in (None, "remove", "add"):
+        def call_func(i, n, a, k, c, o, mutate=mutate):
+            cb = a[0]
+            c = c.hset("$ran", ListV(c.heap.get("$ran", ListV(())).items + (cb,)))
+            if cb == Const("cb1") and mutate:
+                t2cb = c.heap["Function.task2cb"]
+                ent = t2cb.get(Const("T"))
+                cbs = ent.get(Const("cb"))
+                if mutate == "remove":   # task.remove_done_callback(this_task, cb2) called by cb1
+                    cbs2 = DictV([(k2, v) for k2, v in cbs.items if k2 != Const("cb2")])
+                else:                    # task.add_done_callback(this_task, cb4) called by cb1
+                    cbs2 = cbs.set(Const("cb4"), info())
+                c = c.hset("Function.task2cb", t2cb.set(Const("T"), ent.set(Const("cb"), cbs2)))
+            return [(c, NONE)]
+
+        pol = _LivePolicy(program, may_raise_all=False, cancel=False, summaries={"ast_ctx.call_func": call_func, "asyncio.current_task": lambda i, n, a, k, c, o: [(c, Const("T"))]})
+        heap = {"Function.task2cb": DictV([(Const("T"), DictV([(Const("ctx"), ObjV("actx", "AstEval")), (Const("cb"), DictV([(Const("cb1"), info()), (Const("cb2"), info()), (Const("cb3"), info())]))]))]),
+                "Function.our_tasks": ListV((), "set"), "Function.unique_task2name": DictV([]), "Function.unique_name2task": DictV([]), "Function.task2context": DictV([])}
+        out = run_flow(program, RUN_CORO, pol, args={"cls": ClassV("Function"), "coro": Sym(("coro",)), "ast_ctx": NONE}, heap=heap)
+        bad = None
+        ex = exits(out)
+        for k, c, d in ex:
+            ran = [x.v for x in c.heap.get("$ran", ListV(())).items if isinstance(x, Const)]
+            if k != "return":
+                bad = f"run_coro leaves with {d} after running {ran}"
+            elif any(ran.count(x) != 1 for x in ("cb1", "cb3")) or ran.count("cb2") > 1 or (mutate != "remove" and ran.count("cb2") != 1):
+                bad = f"callbacks run: {ran}"
+            elif c.heap.get("Function.task2cb") != DictV([]):
+                bad = f"the task's callback table is not forgotten: {c.heap.get('Function.task2cb')!r}"
+        what = {None: "callbacks leave the table alone", "remove": "the first callback removes the second one", "add": "the first callback adds a fourth one"}[mutate]
+        ctx.check(bool(ex) and bad is None, rid, RUN_CORO, f"three done callbacks, {what}", msg=f"run_coro with three done callbacks where {what}: {bad or 'no exit'} - "
+                  f"the remaining callbacks are skipped and the task ends with an exception", key=f"callback mutation {mutate}", node=fn, rel="function.py")
